@@ -1,6 +1,7 @@
 package verifsim
 
 import (
+	"regexp"
 	"context"
 	"encoding/json"
 	"errors"
@@ -556,16 +557,21 @@ func (c *Client) IsObjectNamespaced(obj runtime.Object) (bool, error) {
 	return ki.Namespaced, nil
 }
 
-// failedPhase extracts the phase named by an Available=False/ProbeFailure condition message
-// (`Phase "name" failed: ...`), "" otherwise.
-func failedPhase(p Proj) string {
+// failedPhase returns the phases (of the object's own spec) that the Available=False/ProbeFailure condition message
+// names, i.e. whose name occurs in it as a whole word; it does not depend on the wording of the message.
+func failedPhase(p Proj) []string {
+	out := []string{}
 	for _, c := range p.CR.Conds {
 		if c.Type == "Available" && c.Reason == "ProbeFailure" {
-			var name string
-			if _, err := fmt.Sscanf(c.Msg, "Phase %q failed:", &name); err == nil {
-				return name
+			for _, ph := range p.CR.Phases {
+				if ph.Name == "" {
+					continue
+				}
+				if regexp.MustCompile(`(^|[^A-Za-z0-9_-])` + regexp.QuoteMeta(ph.Name) + `($|[^A-Za-z0-9_-])`).MatchString(c.Msg) {
+					out = append(out, ph.Name)
+				}
 			}
 		}
 	}
-	return ""
+	return out
 }
